@@ -171,7 +171,7 @@ type c16Case struct {
 
 var c16Keywords = []string{"select", "insert", "delete", "create", "construct", "deconstruct", "drop", "graph", "data", "into", "from", "where", "as", "type", "id", "at", "in", "before", "after", "between", "count", "distinct", "sum", "group", "by", "order", "having", "asc", "desc", "limit", "not", "and", "or", "show", "graphs", "optional", "filter"}
 
-var c16Lexemes = []string{"?x", "?foo_1", "/u<a>", "/t/x<a b>", "_:v", "\"p\"@[]", "\"p\"@[2006-01-02T15:04:05Z]", "\"p\"@[2006-01-02T15:04:05Z,2007-01-02T15:04:05Z]", "\"p\"@[,]", "\"p\"@[?a,?b]", "\"1\"^^type:int64", "\"x y\"^^type:text", "\"true\"^^TYPE:BOOL", "\"[1 2]\"^^type:blob", "\"1.5\"^^type:Float64", "{", "}", "(", ")", ".", ";", ",", "<", ">", "=", "2006-01-02T15:04:05Z", "2006-01-02T15:04:05.5+01:00,2007-01-02T15:04:05Z", "latest", "isTemporal", "latest(", "#", "\\", "\"", "\"unterminated", "/t<unterminated", "_:", "_x", "?", "@[", "^^type:", "1", "é", "世"}
+var c16Lexemes = []string{"?x", "?foo_1", "/u<a>", "/t/x<a b>", "_:v", "\"p\"@[]", "\"p\"@[2006-01-02T15:04:05Z]", "\"p\"@[2006-01-02T15:04:05Z,2007-01-02T15:04:05Z]", "\"p\"@[,]", "\"p\"@[,,]", "\"p\"@[2006-01-02T15:04:05Z,2007-01-02T15:04:05Z,]", "\"\"@[,,,]", "\"p\"@[?a,?b]", "\"1\"^^type:int64", "\"x y\"^^type:text", "\"true\"^^TYPE:BOOL", "\"[1 2]\"^^type:blob", "\"1.5\"^^type:Float64", "{", "}", "(", ")", ".", ";", ",", "<", ">", "=", "2006-01-02T15:04:05Z", "2006-01-02T15:04:05.5+01:00,2007-01-02T15:04:05Z", "latest", "isTemporal", "latest(", "#", "\\", "\"", "\"unterminated", "/t<unterminated", "_:", "_x", "?", "@[", "^^type:", "1", "é", "世"}
 
 func genStatementish(t *rapid.T) string {
 	n := rapid.IntRange(0, 14).Draw(t, "ntok")
@@ -568,6 +568,30 @@ func TestC16Exh(t *testing.T) {
 		}
 	}
 	rec("", 0)
+	// second family: every string up to length 4 over the alphabet placed INSIDE the
+	// anchor brackets of a predicate and inside the quotes of a literal, followed by
+	// another token (what follows an ERROR token must never be tokenised)
+	inner := 3
+	if pbt.Thorough() {
+		inner = 4
+	}
+	var rec2 func(mid string, depth int)
+	rec2 = func(mid string, depth int) {
+		idx++
+		if idx%nsh == shard {
+			batch = append(batch, "\"p\"@["+mid+"] ?x", "\""+mid+"\"^^type:text ?x", "/u<"+mid+"> ?x")
+			if len(batch) >= 512 {
+				flush()
+			}
+		}
+		if depth == inner {
+			return
+		}
+		for i := 0; i < k; i++ {
+			rec2(mid+c16ExhAlphabet[i], depth+1)
+		}
+	}
+	rec2("", 0)
 	flush()
 	pbt.RecordBulk("TestC16Exh", total, interesting, fmt.Sprintf("all strings of length <= %d over %v (shard %d/%d)", maxLen, c16ExhAlphabet, shard, nsh),
 		samples)
